@@ -1,6 +1,7 @@
 """C18 - streams are consumed incrementally: bounded read-ahead at each delivery, documents before a
 malformed one are delivered first, an abandoned iteration releases the stream."""
 import gc
+import io
 import random
 import weakref
 
@@ -59,9 +60,14 @@ def gen_doc(r, big):
     elif c < 0.85:
         n = r.choice([100, blk - 10, blk + 10, 2 * blk + 100, 3 * blk + 7, (9 * blk if big else 3 * blk)])
         body = r.choice(['--- "%s"\n', "--- '%s'\n", '--- %s\n', '--- |\n  %s\n', '--- &%s v\n']) % ('x' * n)
-    else:
+    elif c < 0.93:
         n = r.choice([3, 200, 900])
         body = '---\n' + ''.join('- {a: %d, b: [x, y]}\n' % i for i in range(n))
+    else:
+        # long runs without a single ASCII byte (multi-byte characters only), several blocks long
+        n = r.choice([50, 1400, 2800, 5000, (12000 if big else 5000)])
+        ch = r.choice([chr(0x4e2d), chr(0xe9), chr(0x1F600)])
+        body = r.choice(['--- "%s"\n', '--- %s\n', '---\n- %s\n- x\n', '--- |\n  %s\n']) % (ch * n)
     if ee:
         body += '...\n'
     return body, ee
@@ -143,13 +149,53 @@ def deliveries(op, lname, stream):
             yield 'doc', d
 
 
-def check_stream(text, decide, ctx, op, lname, binary, sched, label):
-    data = text.encode('utf-8') if binary else text       # ASCII only: offsets coincide
+class CountingStringIO(io.StringIO):
+    """A real io.TextIOBase stream (io.StringIO subclass) that logs what is read from it."""
+
+    def __init__(self, data):
+        io.StringIO.__init__(self, data)
+        self.calls = []
+        self.max_request = 0
+        self.handed = 0
+
+    def read(self, size=-1):
+        chunk = io.StringIO.read(self, size)
+        self.calls.append((size, len(chunk)))
+        if size is not None and size >= 0:
+            self.max_request = max(self.max_request, size)
+        self.handed += len(chunk)
+        return chunk
+
+
+def byte_offsets(text):
+    """off[i] = number of UTF-8 bytes of text[:i]"""
+    off = [0] * (len(text) + 1)
+    n = 0
+    for i, ch in enumerate(text):
+        o = ord(ch)
+        n += 1 if o < 0x80 else 2 if o < 0x800 else 3 if o < 0x10000 else 4
+        off[i + 1] = n
+    return off
+
+
+def check_stream(text, decide, ctx, op, lname, binary, sched, label, textio=False):
+    ascii_only = text.isascii()
+    data = text.encode('utf-8') if binary else text
+    if binary and not ascii_only:
+        boff = byte_offsets(text)
+        decide = [boff[d] for d in decide]
+        unit = lambda i: boff[min(i, len(text))]
+    else:
+        unit = lambda i: i
     B = Calib.block(lname, binary)
     if not B:
         ctx.stat('calibration_failed')
         return
-    s = streams.ReadStream(data, sched)
+    if textio and not binary and sched is None:
+        s = CountingStringIO(text)
+        ctx.stat('textio_deliveries')
+    else:
+        s = streams.ReadStream(data, sched)
     case = {'label': label, 'op': op, 'loader': lname, 'binary': binary, 'schedule': sched}
     k = 0
     worst = 0
@@ -168,14 +214,14 @@ def check_stream(text, decide, ctx, op, lname, binary, sched, label):
                     return
                 k += 1
             else:
-                toks.append((item.start_mark.index, item.start_mark.line, item.end_mark.index, s.handed, type(item).__name__))
+                toks.append((unit(item.start_mark.index), item.start_mark.line, unit(item.end_mark.index), s.handed, type(item).__name__))
                 k += 1
         # a token is released at the latest when the scanner has fetched the first token that makes it stale as a
         # possible simple key (another line, or more than 1024 characters further): bound = end of that token + two blocks
         j = 0
         for i, (st, ln, en, handed, name) in enumerate(toks):
             j = max(j, i + 1)
-            while j < len(toks) and not (toks[j][1] > ln or toks[j][0] - st > 1024):
+            while j < len(toks) and not (toks[j][1] > ln or toks[j][0] - st > 4 * 1024):
                 j += 1
             if j >= len(toks):
                 break
@@ -244,9 +290,11 @@ def malformed_case(r, ctx, i):
 
 def release_case(r, ctx, i):
     text, decide = gen_stream(r, False, ndocs=r.choice([2, 3, 6]))
-    mode = r.choice(['close', 'drop', 'error', 'exhaust', 'break_in_for'])
+    mode = r.choice(['close', 'drop', 'error', 'exhaust', 'break_in_for', 'mid_document', 'error_mid_document'])
     if mode == 'error':
         text += '--- @bad\n'
+    if mode in ('mid_document', 'error_mid_document'):
+        text += '---\n- [a, {k: [v, w, {deep: [1, 2, 3]}]}]\n- tail\n' + ('- @bad\n' if mode == 'error_mid_document' else '')
     for lname in yamlapi.loaders(['SafeLoader', 'CSafeLoader', 'Loader', 'CLoader']):
         for op in OPS:
             binary = r.random() < 0.5
@@ -265,6 +313,13 @@ def release_case(r, ctx, i):
                 elif mode == 'break_in_for':
                     for _ in g:
                         break
+                elif mode == 'mid_document':
+                    # stop inside a collection, with parser states pending
+                    n_items = 0
+                    for _ in g:
+                        n_items += 1
+                        if n_items >= {'scan': 30, 'parse': 22}.get(op, 10 ** 6):
+                            break
                 else:
                     for _ in g:
                         pass
@@ -274,12 +329,16 @@ def release_case(r, ctx, i):
                 pass
             del g
             del s
-            gc.collect()
             ctx.case(core.h64('rel', text, op, lname, mode), True, ['release:' + mode])
             ctx.stat('release_probes')
+            # the cyclic collector is switched off for this shard: dispose() exists to clear the loader's self-references, so that
+            # abandoning the iteration frees the loader - and the caller's stream - at once
             if ref() is not None:
                 holders = [type(x).__name__ for x in gc.get_referrers(ref())][:5]
-                ctx.violation(case, {'what': 'the stream is still referenced after the iteration was abandoned / finished', 'mode': mode, 'referrers': holders}, None)
+                gc.collect()
+                ctx.violation(case, {'what': 'the stream is still referenced after the iteration was abandoned / finished' +
+                                     (' (only the cyclic garbage collector frees it: the loader still refers to itself)' if ref() is None else ''),
+                                     'mode': mode, 'referrers': holders}, None)
 
 
 def run(spec, ctx):
@@ -299,13 +358,15 @@ def run(spec, ctx):
                     for sched in scheds:
                         binary = r.random() < 0.5
                         ctx.crumb({'kind': 'stream', 'text': text if len(text) < 4000 else None, 'seedinfo': [spec['seed'], spec['shard'], i], 'op': op, 'loader': lname})
-                        n = check_stream(text, decide, ctx, op, lname, binary, sched, {'seed': spec['seed'], 'shard': spec['shard'], 'i': i, 'big': spec.get('big', False)})
+                        n = check_stream(text, decide, ctx, op, lname, binary, sched, {'seed': spec['seed'], 'shard': spec['shard'], 'i': i, 'big': spec.get('big', False)},
+                                         textio=(sched is None))
                         ctx.case(core.h64(label, op, lname, binary, repr(sched)), bool(n and n >= 2 and len(text) > 3 * 4096),
                                  ['op:' + op, 'backend:' + ('c' if lname.startswith('C') else 'py'), 'docs<=5' if len(decide) <= 5 else 'docs>5'])
     elif k == 'malformed':
         for i in range(spec['n']):
             malformed_case(r, ctx, i)
     elif k == 'release':
+        gc.disable()
         for i in range(spec['n']):
             release_case(r, ctx, i)
 
